@@ -536,6 +536,9 @@ pub struct SoundDev {
     /// event-queue buffers (queue 1)
     pub ev_posted: Vec<Chain>,
     pub hold_all: bool,
+    /// a slow device: it lets this many turns pass before each completion it makes on a turn
+    pub patience: u32,
+    pub patience_left: u32,
 }
 
 impl SoundDev {
@@ -556,6 +559,8 @@ impl SoundDev {
             max_outstanding: 0,
             ev_posted: vec![],
             hold_all: false,
+            patience: 0,
+            patience_left: 0,
         }
     }
 
@@ -772,7 +777,12 @@ impl Handler for SoundDev {
 
     fn on_turn(&mut self, w: &mut World, qs: &mut Queues) -> bool {
         if !self.hold_all && !self.tx_held.is_empty() {
-            // generated timing: one more completion per idle turn
+            // generated timing: one more completion per turn, or per `patience`+1 turns
+            if self.patience_left > 0 {
+                self.patience_left -= 1;
+                return true; // time passes
+            }
+            self.patience_left = self.patience;
             return self.complete_front(w, qs);
         }
         false
